@@ -215,6 +215,9 @@ structure CtxOK (c : Ctx) : Prop where
   bound : c.P.sender ≤ maxSeq
   /-- no data dictionary is configured on the stepping engine (the default validator, under any of its settings) -/
   vd : c.cfg.validator.app = none
+  /-- EnableNextExpectedMsgSeqNum is off on the stepping engine (with it a Logon is followed by a gap fill over whatever the
+      peer's tag 789 says is missing — application messages included: nothing is replayed) -/
+  nx : c.cfg.nextExpected = false
 
 /-- the ghost table knows the payload of `m` under its number -/
 def Noted (rcv : List (String × String)) (m : OutMsg) : Prop :=
